@@ -8,7 +8,7 @@
 //@ struct file=src/sys/fs/memfs/file.rs name=MemfsFile
 //@ endstruct
 //@ struct file=src/sys/fs/memfs/entry.rs name=MemfsEntry
-//@ rw R4 1 ⟦Option<HashSet<String>>⟧ => ⟦Option<NameSet>⟧
+//@ rw R4 * ⟦Option<HashSet<String>>⟧ => ⟦Option<NameSet>⟧
 //@ endstruct
 //@ struct file=src/sys/fs/memfs/entry.rs name=MemfsEntryOpts
 //@ endstruct
@@ -121,7 +121,7 @@ impl MemfsEntryOpts {
 //@ item opts_build file=src/sys/fs/memfs/entry.rs block="impl MemfsEntryOpts" fn=build props=C01,C03,C10,C12
 //@ sig pub(crate) fn build(self) -> MemfsEntry
 //@ rw R2 + re⟦\bself\b⟧ => ⟦this⟧
-//@ rw R4 1 ⟦Some(HashSet::new())⟧ => ⟦Some(NameSet::new())⟧
+//@ rw R4 * ⟦Some(HashSet::new())⟧ => ⟦Some(NameSet::new())⟧
 //@ ins start
         let this = self;
 //@ endins
@@ -146,7 +146,7 @@ impl MemfsEntry {
 
 //@ item entry_add file=src/sys/fs/memfs/entry.rs block="impl MemfsEntry" fn=add props=C03,C01,C12,C09
 //@ sig pub(crate) fn add<T: Into<String>>(&mut self, entry: T) -> RvResult<bool>
-//@ rw R4 1 ⟦let mut files = HashSet::new();⟧ => ⟦let mut files = NameSet::new();⟧
+//@ rw R4 * ⟦let mut files = HashSet::new();⟧ => ⟦let mut files = NameSet::new();⟧
     pub fn add(&mut self, entry: NameStr) -> (r: RvResult<bool>)
         ensures
             !old(self).dir ==> r is Err && r->Err_0.kind == ErrKind::IsNotDir && *final(self) == *old(self),
@@ -263,7 +263,7 @@ pub proof fn lemma_add_wf(s: St, e: EntryV)
 
 //@ item _add file=src/sys/fs/memfs/vfs.rs block="impl Memfs" fn=_add props=C03,C01,C10,C12
 //@ sig pub(crate) fn _add(&self, guard: &mut MemfsGuard, entry: MemfsEntry) -> RvResult<PathBuf>
-//@ rw R8 1 ⟦path == PathBuf::from(Component::RootDir.to_string()?)⟧ => ⟦path.is_root()⟧
+//@ rw R8 * ⟦path == PathBuf::from(Component::RootDir.to_string()?)⟧ => ⟦path.is_root()⟧
 //@ ins before ⟦let path = entry.path_buf();⟧
         let ghost s0 = guard.st();
         let ghost ev0 = entry.ev();
@@ -650,8 +650,8 @@ impl MemfsFile {
     { unimplemented!() }
 
 //@ item file_clone file=src/sys/fs/memfs/file.rs block="impl Clone for MemfsFile" fn=clone props=C06,C07,C12
-//@ rw R4 1 ⟦self.fs.as_ref().map(|x| x.clone())⟧ => ⟦opt_clone_memfs(&self.fs)⟧
-//@ rw R4 1 ⟦self.path.clone()⟧ => ⟦opt_clone_path(&self.path)⟧
+//@ rw R4 * ⟦self.fs.as_ref().map(|x| x.clone())⟧ => ⟦opt_clone_memfs(&self.fs)⟧
+//@ rw R4 * ⟦self.path.clone()⟧ => ⟦opt_clone_path(&self.path)⟧
 //@ rw R9 1 ⟦Self {⟧ => ⟦MemfsFile {⟧
     pub fn clone(&self) -> (r: MemfsFile)
         ensures r.fv() == self.fv(), r.path is Some == self.path is Some, r.fs is Some == self.fs is Some,     //@ clause file.clone.copies_bytes_no_alias [C06]
@@ -662,7 +662,7 @@ impl MemfsFile {
 pub fn opt_clone_names(o: &Option<NameSet>) -> (r: Option<NameSet>) ensures kids_of(r) == kids_of(*o) { unimplemented!() }
 impl MemfsEntry {
 //@ item entry_clone file=src/sys/fs/memfs/entry.rs block="impl Clone for MemfsEntry" fn=clone props=C01,C12,C09
-//@ rw R4 1 ⟦self.files.clone()⟧ => ⟦opt_clone_names(&self.files)⟧
+//@ rw R4 * ⟦self.files.clone()⟧ => ⟦opt_clone_names(&self.files)⟧
 //@ rw R9 1 ⟦Self {⟧ => ⟦MemfsEntry {⟧
     pub fn clone(&self) -> (r: MemfsEntry) ensures r.ev() == self.ev()
 //@ body
@@ -693,7 +693,7 @@ pub fn _clone_file(guard: &MemfsGuard, path: &PathBuf) -> (r: RvResult<MemfsFile
 //@ body
 
 //@ item read file=src/sys/fs/memfs/vfs.rs block="impl VirtualFileSystem for Memfs" fn=read props=C06,C07,C01,C05,C12
-//@ rw R6 1 ⟦Ok(Box::new(self._clone_file(&self.read_guard(), &path)?))⟧ => ⟦Ok(_clone_file(guard, &path)?)⟧
+//@ rw R6 * ⟦Ok(Box::new(self._clone_file(&self.read_guard(), &path)?))⟧ => ⟦Ok(_clone_file(guard, &path)?)⟧
 pub fn read(guard: &MemfsGuard, path: &PathBuf) -> (r: RvResult<MemfsFile>)
     requires guard.st().cwd_ok, wf(guard.st()),
     ensures ({
@@ -710,7 +710,7 @@ pub fn read(guard: &MemfsGuard, path: &PathBuf) -> (r: RvResult<MemfsFile>)
 //@ body
 
 //@ item write file=src/sys/fs/memfs/vfs.rs block="impl VirtualFileSystem for Memfs" fn=write props=C06,C07,C01,C03,C05,C12
-//@ rw R6 1 ⟦Ok(Box::new(MemfsFile {⟧ => ⟦Ok((MemfsFile {⟧
+//@ rw R6 * ⟦Ok(Box::new(MemfsFile {⟧ => ⟦Ok((MemfsFile {⟧
 //@ rw R9 1 ⟦data: vec![],⟧ => ⟦data: Vec::new(),⟧
 //@ rw R11 1 ⟦fs: Some(self.clone()),⟧ => ⟦fs: Some(fs.clone()),⟧
 pub fn write(fs: &Memfs, guard: &mut MemfsGuard, path: &PathBuf) -> (r: RvResult<MemfsFile>)
@@ -734,9 +734,9 @@ pub fn write(fs: &Memfs, guard: &mut MemfsGuard, path: &PathBuf) -> (r: RvResult
 //@ body
 
 //@ item append file=src/sys/fs/memfs/vfs.rs block="impl VirtualFileSystem for Memfs" fn=append props=C06,C07,C01,C03,C05,C12
-//@ rw R6 1 ⟦Ok(Box::new(clone))⟧ => ⟦Ok(clone)⟧
+//@ rw R6 * ⟦Ok(Box::new(clone))⟧ => ⟦Ok(clone)⟧
 //@ rw R11 1 ⟦clone.fs = Some(self.clone());⟧ => ⟦clone.fs = Some(fs.clone());⟧
-//@ rw R8 1 ⟦clone.seek(SeekFrom::End(0))?;⟧ => ⟦clone.seek_end0()?;⟧
+//@ rw R8 * ⟦clone.seek(SeekFrom::End(0))?;⟧ => ⟦clone.seek_end0()?;⟧
 //@ ins after ⟦let path = _abs(guard, path)?;⟧
         let ghost s0 = guard.st();
         proof { assert(file_ok(s0, path@)); }
@@ -1184,9 +1184,9 @@ impl Memfs {
 
 //@ item memfs_new file=src/sys/fs/memfs/vfs.rs block="impl Memfs" fn=new props=C03,C01,C12
 //@ sig pub fn new() -> Self
-//@ rw R8 1 ⟦root.push(Component::RootDir);⟧ => ⟦root.push(Memfs::root_component());⟧
-//@ rw R4 1 ⟦let mut entries = HashMap::new();⟧ => ⟦let mut entries = MemfsEntries::new();⟧
-//@ rw R4 1 ⟦files: HashMap::new(),⟧ => ⟦files: MemfsFiles::new(),⟧
+//@ rw R8 * ⟦root.push(Component::RootDir);⟧ => ⟦root.push(Memfs::root_component());⟧
+//@ rw R4 * ⟦let mut entries = HashMap::new();⟧ => ⟦let mut entries = MemfsEntries::new();⟧
+//@ rw R4 * ⟦files: HashMap::new(),⟧ => ⟦files: MemfsFiles::new(),⟧
 //@ rw R11 1 ⟦Self(Arc::new(RwLock::new(MemfsInner {⟧ => ⟦Memfs::from_inner((MemfsInner {⟧
 //@ rw R11 1 re⟦\}\)\)\)\s*\}\s*$⟧ => ⟦})) }⟧
     pub fn new() -> (r: Memfs)
@@ -1245,7 +1245,7 @@ pub open spec fn st_append_all(s0: St, a: PathV, data: Seq<u8>) -> St {
 
 //@ item write_lines file=src/sys/fs/memfs/vfs.rs block="impl VirtualFileSystem for Memfs" fn=write_lines props=C06,C01,C12
 //@ sig fn write_lines<T: AsRef<Path>, U: AsRef<str>>(&self, path: T, lines: &[U]) -> RvResult<()>
-//@ rw R4 1 ⟦lines.iter().map(|x| x.as_ref()).collect::<Vec<&str>>().join("\n")⟧ => ⟦join_lines(lines)⟧
+//@ rw R4 * ⟦lines.iter().map(|x| x.as_ref()).collect::<Vec<&str>>().join("\n")⟧ => ⟦join_lines(lines)⟧
 //@ rw R12 1 re⟦self\.write_all\(path, (.*?)\)\?;⟧ => ⟦write_all(fs, guard, path, rw_data(\1).as_bytes())?;⟧
 //@ rw R4 * ⟦rw_data(lines + "\n")⟧ => ⟦lines.plus_nl()⟧
 pub fn write_lines(fs: &Memfs, guard: &mut MemfsGuard, path: &PathBuf, lines: &[Str]) -> (r: RvResult<()>)
@@ -1266,7 +1266,7 @@ pub fn write_lines(fs: &Memfs, guard: &mut MemfsGuard, path: &PathBuf, lines: &[
 
 //@ item append_lines file=src/sys/fs/memfs/vfs.rs block="impl VirtualFileSystem for Memfs" fn=append_lines props=C06,C01,C12
 //@ sig fn append_lines<T: AsRef<Path>, U: AsRef<str>>(&self, path: T, lines: &[U]) -> RvResult<()>
-//@ rw R4 1 ⟦lines.iter().map(|x| x.as_ref()).collect::<Vec<&str>>().join("\n")⟧ => ⟦join_lines(lines)⟧
+//@ rw R4 * ⟦lines.iter().map(|x| x.as_ref()).collect::<Vec<&str>>().join("\n")⟧ => ⟦join_lines(lines)⟧
 //@ rw R12 1 re⟦self\.append_all\(path, (.*?)\)\?;⟧ => ⟦append_all(fs, guard, path, rw_data(\1).as_bytes())?;⟧
 //@ rw R4 * ⟦rw_data(lines + "\n")⟧ => ⟦lines.plus_nl()⟧
 pub fn append_lines(fs: &Memfs, guard: &mut MemfsGuard, path: &PathBuf, lines: &[Str]) -> (r: RvResult<()>)
@@ -1607,12 +1607,12 @@ pub proof fn lemma_copy_ok_prefix(s: St, c: CopyV, items: Seq<ItemV>, k: nat, n:
 //@ item _copy file=src/sys/fs/memfs/vfs.rs block="impl Memfs" fn=_copy props=C09,C03,C06,C05,C01,C12
 //@ sig fn _copy(&self, guard: &mut MemfsGuard, cp: sys::CopyOpts) -> RvResult<()>
 //@ rw R1 * re⟦\b(cp\.src|cp\.dst|src_root|dst_root) == (cp\.src|cp\.dst|src_root|dst_root)\b⟧ => ⟦\1.eq_abs(&\2)⟧
-//@ rw R1 1 ⟦_clone_entry(guard, src_root)?⟧ => ⟦_clone_entry(guard, &src_root)?⟧
+//@ rw R1 * ⟦_clone_entry(guard, src_root)?⟧ => ⟦_clone_entry(guard, &src_root)?⟧
 //@ rw R1 + re⟦dst_root\.mash\(⟧ => ⟦dst_root.mash_rel(⟧
 //@ rw R1 * ⟦_symlink(guard, dst_path, src.alt())?⟧ => ⟦_symlink(guard, &dst_path, src.alt())?⟧
 //@ rw R1 * ⟦_clone_entry(guard, src.path().dir()?)?⟧ => ⟦_clone_entry(guard, &src.path().dir()?)?⟧
 //@ rw R4 + re⟦(\w+)\.or\(⟧ => ⟦opt_or(\1, ⟧
-//@ rw R4 1 ⟦dst.path.clone_from(&dst_path);⟧ => ⟦dst.path = dst_path.clone();⟧
+//@ rw R4 * ⟦dst.path.clone_from(&dst_path);⟧ => ⟦dst.path = dst_path.clone();⟧
 //@ rw R3 1 for
 //@ ins start
     let ghost s0 = guard.st();
@@ -2038,7 +2038,7 @@ pub fn buf_lines(f: MemfsFile) -> (r: DeIter<RvResult<Str>>)
 
 //@ item read_all file=src/sys/fs/memfs/vfs.rs block="impl VirtualFileSystem for Memfs" fn=read_all props=C06,C01,C05,C12
 //@ rw R11 1 ⟦self.read(path)⟧ => ⟦read(guard, path)⟧
-//@ rw R1 1 ⟦String::new()⟧ => ⟦Str::new()⟧
+//@ rw R1 * ⟦String::new()⟧ => ⟦Str::new()⟧
 //@ ins before ⟦file.read_to_string(&mut buf)?;⟧
                 proof { assert(file.data@.skip(0) =~= file.data@); assert(buf@ + decode(file.data@)->Some_0 =~= decode(file.data@)->Some_0); }
 //@ endins
@@ -2070,7 +2070,7 @@ pub fn read_at0(guard: &MemfsGuard, path: &PathBuf) -> (r: RvResult<MemfsFile>)
 }
 //@ item read_lines file=src/sys/fs/memfs/vfs.rs block="impl VirtualFileSystem for Memfs" fn=read_lines props=C06,C01,C05,C12
 //@ rw R9 1 ⟦let mut lines = vec![];⟧ => ⟦let mut lines: Vec<Str> = Vec::new();⟧
-//@ rw R4 1 ⟦BufReader::new(self.read(path)?).lines()⟧ => ⟦buf_lines(read_at0(guard, path)?)⟧
+//@ rw R4 * ⟦BufReader::new(self.read(path)?).lines()⟧ => ⟦buf_lines(read_at0(guard, path)?)⟧
 //@ rw R3 1 for
 //@ ins after ⟦{ let mut __it1 = buf_lines(read_at0(guard, path)?);⟧
         let ghost all = __it1.rest();
@@ -2121,7 +2121,7 @@ pub struct Copier { pub opts: CopyOpts }
 //@ rw R9 1 ⟦let vfs = self.clone();⟧ => ⟦⟧
 //@ rw R9 1 re⟦let exec_func = move \|[^|]*\| -> RvResult<\(\)> \{[^}]*\};⟧ => ⟦⟧
 //@ rw R9 1 ⟦exec: Box::new(exec_func),⟧ => ⟦⟧
-//@ rw R1 1 ⟦"".to_string()⟧ => ⟦Str::new()⟧
+//@ rw R1 * ⟦"".to_string()⟧ => ⟦Str::new()⟧
 pub fn chmod_b(guard: &MemfsGuard, path: &PathBuf) -> (r: RvResult<Chmod>)
     requires guard.st().cwd_ok
     ensures (r is Ok) == (spec_abs(guard.st().cwd, path.comps()) is Some),
@@ -2150,9 +2150,9 @@ pub fn chown_b(guard: &MemfsGuard, path: &PathBuf) -> (r: RvResult<Chown>)
 //@ rw R9 1 ⟦let vfs = self.clone();⟧ => ⟦⟧
 //@ rw R9 1 re⟦let exec_func = move \|[^|]*\| -> RvResult<\(\)> \{.*?\n        \};⟧ => ⟦⟧
 //@ rw R9 1 ⟦exec: Box::new(exec_func),⟧ => ⟦⟧
-//@ rw R8 1 ⟦sys::CopyOpts {⟧ => ⟦CopyOpts {⟧
+//@ rw R8 * ⟦sys::CopyOpts {⟧ => ⟦CopyOpts {⟧
 // ASSUMED[derive-default]: Default::default() is None for Option<u32> and false for bool
-//@ rw R4 1 ⟦mode: Default::default(),⟧ => ⟦mode: None,⟧
+//@ rw R4 * ⟦mode: Default::default(),⟧ => ⟦mode: None,⟧
 //@ rw R4 3 re⟦(cdirs|cfiles|follow): Default::default\(\),⟧ => ⟦\1: false,⟧
 pub fn copy_b(src: &PathBuf, dst: &PathBuf) -> (r: RvResult<Copier>)
     ensures r is Ok && ({
